@@ -21,7 +21,46 @@ import (
 	"testing"
 
 	"github.com/andybalholm/brotli"
+	"golang.org/x/net/html"
 )
+
+// verifDOM renders the parsed document with every reload script removed, and says how many there were and whether
+// each was the last child of the body element.
+func verifDOM(doc string) (rendered string, scripts int, lastOfBody bool) {
+	root, err := html.Parse(strings.NewReader(doc))
+	if err != nil {
+		return "", -1, false
+	}
+	lastOfBody = true
+	var walk func(n *html.Node)
+	walk = func(n *html.Node) {
+		for c := n.FirstChild; c != nil; {
+			next := c.NextSibling
+			isReload := false
+			if c.Type == html.ElementNode && c.Data == "script" {
+				for _, a := range c.Attr {
+					if a.Key == "src" && strings.Contains(a.Val, "/_templ/reload/script.js") {
+						isReload = true
+					}
+				}
+			}
+			if isReload {
+				scripts++
+				if !(n.Type == html.ElementNode && n.Data == "body" && c.NextSibling == nil) {
+					lastOfBody = false
+				}
+				n.RemoveChild(c)
+			} else {
+				walk(c)
+			}
+			c = next
+		}
+	}
+	walk(root)
+	var b bytes.Buffer
+	html.Render(&b, root)
+	return b.String(), scripts, lastOfBody
+}
 
 func verifResp(hdr map[string]string, body []byte) *http.Response {
 	u, _ := url.Parse("http://localhost/page")
@@ -204,8 +243,42 @@ func TestVerifReplayC20(t *testing.T) {
 			report("htmx", fmt.Sprintf("the response to an HX-Request must pass through, got %q", got))
 		}
 	}
+	// 2c. documents in which the text of a body end tag also occurs where it is not a tag (script string, comment,
+	// textarea, attribute value), or in which end tags are omitted: the parsed result must be the parsed original
+	// plus one reload script as the last child of body
+	for _, d := range []string{
+		"<html><head></head><body><p>x</p><script>console.log(\"<body></body>\")</script>",
+		"<html><body><p>x</p></body></html><!-- old: <body>...</body> -->",
+		"<body><textarea></body></textarea><p>after</p>",
+		"<html><body><a title=\"</body>\">x</a></body></html>",
+		"<p>no body tag at all",
+		"<html><body><p>one</p></BODY ></html>",
+	} {
+		for _, enc := range []string{"", "gzip"} {
+			hdr := map[string]string{"Content-Type": "text/html"}
+			if enc != "" {
+				hdr["Content-Encoding"] = enc
+			}
+			r := verifResp(hdr, verifEncode(enc, d))
+			if err := h.modifyResponse(r); err != nil {
+				report("rewrite", fmt.Sprintf("document %q encoding %q: error %v", d, enc, err))
+				continue
+			}
+			sent, _ := io.ReadAll(r.Body)
+			out, err := verifDecode(enc, sent)
+			if err != nil {
+				report("rewrite", fmt.Sprintf("document %q encoding %q: the bytes sent do not decode: %v", d, enc, err))
+				continue
+			}
+			want, _, _ := verifDOM(d)
+			got, n, last := verifDOM(out)
+			if n != 1 || !last || got != want {
+				report("rewrite", fmt.Sprintf("document %q encoding %q is rewritten to %q: parsed, it holds %d reload script elements (as the last child of body: %v) and the rest of the document is %q, want exactly one, last in body, and %q", d, enc, out, n, last, got, want))
+			}
+		}
+	}
 	if len(seen) == 0 {
-		fmt.Println("REPLAY-NOT-REPRODUCED bounded search: 5 pass-through responses, 3 encodings x 7 CSP shapes rewritten and decoded, a frameset page in 3 encodings, 1 HTMX request")
+		fmt.Println("REPLAY-NOT-REPRODUCED bounded search: 6 documents with body end tags in non-tag positions / omitted end tags in 2 encodings, 5 pass-through responses, 3 encodings x 7 CSP shapes rewritten and decoded, a frameset page in 3 encodings, 1 HTMX request")
 	}
 }
 `
